@@ -446,6 +446,9 @@ func (n *Net) collect(node *Node, pv interface{}, stack string) string {
 					// independent of validateBlock (which relaxes its ValidatorsHash check for recover blocks): no node of the
 					// simulation is ever in recover mode
 					n.BadVotes = append(n.BadVotes, fmt.Sprintf("node %d %s h=%d r=%d for a recover block (Recover=%d) outside recover mode", node.Idx, kind, vm.Vote.Height, vm.Vote.Round, blk.Header.Recover))
+				} else if why := InternallyInconsistent(blk); why != "" {
+					// independent of Block.ValidateBasic (which validateBlock relies on): the header's own commitments recomputed here
+					n.BadVotes = append(n.BadVotes, fmt.Sprintf("node %d %s h=%d r=%d for an internally inconsistent block: %s", node.Idx, kind, vm.Vote.Height, vm.Vote.Round, why))
 				} else if err := cs.VerifValidateBlock(node.DB, node.CS.VerifStatus(), blk); err != nil {
 					n.BadVotes = append(n.BadVotes, fmt.Sprintf("node %d %s h=%d r=%d for a block failing validateBlock: %.120s", node.Idx, kind, vm.Vote.Height, vm.Vote.Round, err.Error()))
 				}
@@ -463,6 +466,34 @@ func (n *Net) collect(node *Node, pv interface{}, stack string) string {
 		outs = append(outs, fmt.Sprintf("to(%d,%d,%d)", t.Height, t.Round, t.Step))
 	}
 	return n.StateLine(node) + " out=" + strings.Join(outs, ";")
+}
+
+// InternallyInconsistent recomputes the commitments a header makes to the rest of its own block (clause "internal hash
+// consistency" of C02) without calling Block.ValidateBasic: number of transactions, data hash, last-commit hash (at every
+// height, the first included: the empty commit has a hash too), evidence hash.  "" = consistent.
+func InternallyInconsistent(b *types.Block) string {
+	if b == nil || b.Header == nil {
+		return "no header"
+	}
+	if b.Data == nil {
+		return "no data"
+	}
+	if b.NumTxs != uint64(len(b.Data.Txs)) {
+		return fmt.Sprintf("NumTxs %d, %d transactions", b.NumTxs, len(b.Data.Txs))
+	}
+	if !bytes.Equal(b.DataHash.Bytes(), b.Data.Hash().Bytes()) {
+		return "DataHash is not the hash of the data"
+	}
+	if b.LastCommit == nil {
+		return "no last commit"
+	}
+	if !bytes.Equal(b.LastCommitHash.Bytes(), b.LastCommit.Hash().Bytes()) {
+		return "LastCommitHash is not the hash of the last commit"
+	}
+	if !bytes.Equal(b.EvidenceHash.Bytes(), b.Evidence.Hash().Bytes()) {
+		return "EvidenceHash is not the hash of the evidence"
+	}
+	return ""
 }
 
 // noteCommits records decide events for blocks the node's application committed since the last call.
